@@ -58,6 +58,11 @@ structure StabilisedX (env : Env) (rk : Nat → Nat) (fuel : Nat) (s s' : State)
   /-- the drain starts in a state with the drain invariant and ends in one, with an empty heap -/
   drain : ∃ t2 t3, DInvX env t2 none ∧ (drainHeap env fuel).run.run t2 = (.ok (), t3) ∧ DInvX env t3 none ∧
     t3.rch.length = 0 ∧ t2.vars = s.vars ∧ ∀ m, s'.isNecessary m = t2.isNecessary m
+  /-- the four phases of the run -/
+  runs : ∃ t1 t2 t3, (addNewObservers env fuel).run.run { s with status := .stabilising } = (.ok (), t1) ∧
+    (unlinkDisallowedObservers fuel).run.run t1 = (.ok (), t2) ∧ DInvX env t2 none ∧
+    UnnecOK (virtEnv env) (ExpertH.virt t2) ∧ (drainHeap env fuel).run.run t2 = (.ok (), t3) ∧ (stabiliseEnd env fuel).run.run t3 = (.ok (), s') ∧
+    Finished' t3 s'
 
 theorem virt_status_set (s : State) (x : Status) :
     virt { s with status := x } = { virt s with status := x } := rfl
@@ -148,7 +153,7 @@ theorem stabiliseX {env : Env} {rk : Nat → Nat} {fuel : Nat} {s s' : State} (Q
       fun m => by rw [hmark]; exact DR3.ahh.marks m⟩
   have hval : ∀ m, s'.value env m = t3.value env m := fun m => by
     rw [value_plain env s' m (F'.noMapRef m), value_plain env t3 m (DR3.frag.noMapRef m), hvalue]
-  refine ⟨⟨F', SC.inv, A'⟩, SC, ?_, ?_⟩
+  refine ⟨⟨F', SC.inv, A'⟩, SC, ?_, ?_, ⟨t1, t2, t3, by rw [← hs0]; exact h1, h2, DR2, U2, h3, h4, E⟩⟩
   · intro n hn k hk
     have hn3 : t3.isNecessary n = true := by rw [← hnec]; exact hn
     obtain ⟨-, v2, v3, v4⟩ := drainedX_values DR3 he3 n hn3 k (by rw [← hheight]; exact hk)
